@@ -28,13 +28,13 @@ TIMEOUT = {"quick": 1500, "thorough": 7000}
 def cases(tier, seed):
     out = [{"seed": seed, "idx": i, "kind": "unit"} for i in range(8 if tier == "quick" else 32)]
     lattice = [7.5 * k for k in range(48)]
-    reps = 3 if tier == "quick" else 40
+    reps = 3 if tier == "quick" else 100
     i = 0
     for r in range(reps):
         for d in lattice:
             out.append({"seed": seed, "idx": i, "kind": "e2e", "wd": d, "_cost": 8})
             i += 1
-    for k in range(48 if tier == "quick" else 2000):
+    for k in range(48 if tier == "quick" else 6000):
         out.append({"seed": seed, "idx": i, "kind": "e2e", "wd": None, "_cost": 8})
         i += 1
     return out
